@@ -9,3 +9,4 @@ INFO = {
     'stated_lemmas': [],
     'trusted': ['CPython int is mathematical; isinstance/None/bool dispatch executed by CPython itself'],
 }
+import props._all  # noqa
